@@ -318,6 +318,10 @@ def check_tree_eval(ctx, case, root, env, text):
     """All obligations of C05 on one tree and one assignment."""
     ctx.count("tree_evaluations")
     try:
+        twin = root.clone()  # never evaluated before the history clause at the end
+    except Exception:
+        twin = None
+    try:
         int_feasible(root, env)
     except Infeasible:
         ctx.count("skipped:astronomical-integer")
@@ -447,6 +451,30 @@ def check_tree_eval(ctx, case, root, env, text):
                 return ctx.fail(("float-operation-wrong", k), case, det)
     if nops >= 3:
         ctx.nontriv(key)
+    # "for all assignments": the tree object has now been evaluated (whole and node by node) under env. Evaluated under a
+    # SECOND assignment it must give what a copy that was never evaluated gives, and under the first one again what it gave
+    # before - nothing an earlier evaluation leaves behind may matter
+    if twin is not None and used:
+        env2 = {}
+        for name, v in env.items():
+            pv = plain(v) if v is not None else None
+            env2[name] = None if v is None else (pv + 1 if is_intlike(pv) else (pv * 2 + 1 if isinstance(pv, float) else v))
+
+        def outcome(tree, e):
+            try:
+                r = plain(tree.evaluate(e))
+            except Exception as ex:
+                return ("raised", type(ex).__name__)
+            return ("nan",) if isinstance(r, float) and r != r else (type(r).__name__, r)
+
+        first = outcome(root, env)
+        a, b = outcome(root, env2), outcome(twin, env2)
+        again = outcome(root, env)
+        ctx.count("clause:second-assignment")
+        if a != b:
+            return ctx.fail(("evaluation-depends-on-history", "second-assignment"), case, {"second_assignment": {k: repr(v)[:40] for k, v in env2.items() if k in used}, "tree_evaluated_before": repr(a)[:120], "fresh_copy": repr(b)[:120]})
+        if again != first:
+            return ctx.fail(("evaluation-depends-on-history", "first-assignment-again"), case, {"first": repr(first)[:120], "again": repr(again)[:120]})
 
 
 def replay(ctx, case):
